@@ -8,7 +8,8 @@
      B1  may call p of G1's members and ContractManagement;  q not safe;  no group
      B2  may call anything;            q SAFE;      member of G1
      C1  may call anything;            q/2 not safe; member of G1
-     C2  may call anything of G1's members and ContractManagement.update;  q has THREE parameters, safe;  no group
+     C2  may call anything of G1's members and ContractManagement.update;  q has THREE parameters, safe;  no group;
+         NO _deploy method (ContractManagement does not call it back)
    so that a self-update changes the own permissions (A1->A2: stops being allowed to call ContractManagement, C, B.q),
    the callee's safe marks (q of A and B), parameter counts (q of C) and group membership (A leaves, B joins G1:
    B1's group permission stops / C2's starts matching). *)
@@ -23,10 +24,11 @@ A2 == Man(<< Perm("hash", "B", FALSE, {"p"}) >>, << Meth("p", 2, FALSE), Meth("q
 B1 == Man(<< Perm("group", "G1", FALSE, {"p"}), Perm("hash", "M", TRUE, {}) >>, << Meth("p", 2, FALSE), Meth("q", 2, FALSE), D >>, {})
 B2 == Man(<< Wild >>, << Meth("p", 2, FALSE), Meth("q", 2, TRUE), D >>, {"G1"})
 C1 == Man(<< Wild >>, << Meth("p", 2, FALSE), Meth("q", 2, FALSE), D >>, {"G1"})
-C2 == Man(<< Perm("group", "G1", TRUE, {}), Perm("hash", "M", FALSE, {"update"}) >>, << Meth("p", 2, FALSE), Meth("q", 3, TRUE), D >>, {})
+C2 == Man(<< Perm("group", "G1", TRUE, {}), Perm("hash", "M", FALSE, {"update"}) >>, << Meth("p", 2, FALSE), Meth("q", 3, TRUE) >>, {})
 
 MCContracts == IF Universe = "two" THEN {"A", "B"} ELSE {"A", "B", "C"}
-MCCat == IF Universe = "two" THEN [A |-> <<A1, A2>>, B |-> <<B1, B2>>]
+B2n == Man(B2.perms, << Meth("p", 2, FALSE), Meth("q", 2, TRUE) >>, B2.groups)      \* (universe "two": B2 without _deploy)
+MCCat == IF Universe = "two" THEN [A |-> <<A1, A2>>, B |-> <<B1, B2n>>]
          ELSE [A |-> <<A1, A2>>, B |-> <<B1, B2>>, C |-> <<C1, C2>>]
 
 Tok(c, m, a, fl) == [c |-> c, m |-> m, a |-> a, fl |-> fl]
